@@ -261,6 +261,15 @@ Definition check_inverseb (eps : Q) (P : dict) (obs : dict) : bool :=
 Definition check_rowsb (eps : Q) (M : dict) (keys : list key) (obs : dict) : bool :=
   knodupb keys && dict_closeb eps obs (spec_rows M keys).
 
+(* the key lists derived from a matrix: exactly the two halves of every matrix key, each once *)
+Definition check_splitb (M : dict) (obs : list key) : bool :=
+  keyset_eqb obs (kdedup (flat_map halves (dkeys M))).
+
+(* empirical joint degree distribution: P(k) = #{v : jd v = k} / N on exactly the occurring tuples *)
+Definition spec_jdd (g : net) : dict :=
+  map (fun k => (k, nq (vcount g k) / nq (length (jds g)))) (kdedup (jds g)).
+Definition check_jddb (eps : Q) (g : net) (obs : dict) : bool := dict_closeb eps obs (spec_jdd g).
+
 (* network identity: both routes give the closed form (a_i+1) #{v : jd v = a+e_i} / sum_v jd_v[i] *)
 Fixpoint check_net (eps : Q) (g : net) (its : list (nat * nat)) (cs : list nat)
          (rows : matrices) (fwd : list dict) : bool :=
@@ -317,5 +326,7 @@ Definition c14_check (t : tree) : tree :=
   | 3%Z => of_bool (check_rowsb eps (t_dict a) (map t_key (t_list b)) (t_dict (t_nth 4 t)))
   | 4%Z => let g := t_net b (t_nth 4 t) in
            of_bool (check_networkb eps g (t_nats a) (t_nats (t_nth 5 t)) (t_mats (t_nth 6 t)) (t_dicts (t_nth 7 t)))
+  | 5%Z => of_bool (check_splitb (t_dict a) (map t_key (t_list b)))
+  | 6%Z => of_bool (check_jddb eps (t_net a (L [])) (t_dict b))
   | _ => of_bool false
   end.
